@@ -558,7 +558,7 @@ pub fn run(rep: &mut Report) {
     rep.assume("in truncate mode a restarted appender legitimately discards the active file at open; its records are then treated as unacknowledged");
     rep.assume("faults are obstacles at the destination of a step; other fault kinds (EIO, ENOSPC mid-copy) are not injected");
     let thorough = rep.tier == "thorough";
-    run_cases(rep, "history", if thorough { 400 } else { 40 }, one_history);
+    run_cases(rep, "history", if thorough { 600 } else { 120 }, one_history);
     if thorough {
         run_cases(rep, "realcrash", 40, real_crash);
     }
